@@ -52,8 +52,9 @@ def judge(case, ctx):
         ctx.violation("item_invented_or_duplicated", alg, case, dict(w, extra=[str(k) for k in extra.elements()][:6]))
         return
     if missing:
-        if alg == "bc" and vmap is None and all(k[1] == 0 for k in missing):
-            ctx.counters["bc_zero_items_omitted"] += 1
+        value_by_key = {O._key(nm): Fraction(C.value_of(nm, vmap)) for nm in names}
+        if alg == "bc" and all(value_by_key[k] == 0 for k in missing):
+            ctx.counters["bc_zero_items_omitted"] += 1      # the property lets bin-completion omit zero-valued items (named or not)
         else:
             ctx.violation("item_lost", alg, case, dict(w, missing=[str(k) for k in missing.elements()][:6]))
             return
